@@ -380,6 +380,10 @@ def config_space(program: Program, spec: HandlerSpec, extra_fns=()) -> Dict[str,
                                 dom.setdefault(x.id, set()).add("bool")
                             elif y.value is None:
                                 dom.setdefault(x.id, set()).add("none")
+    return domains(dom)
+
+
+def domains(dom):
     out = {}
     for name, kinds in dom.items():
         vals = []
